@@ -174,7 +174,7 @@ def load_known():
 
 
 def write_replay(prop_id, name, payload):
-    d = os.path.join(VERIF, "replays")
+    d = os.environ.get("HGV_REPLAY_DIR") or os.path.join(VERIF, "replays")
     os.makedirs(d, exist_ok=True)
     p = os.path.join(d, "%s-%s.json" % (prop_id, name))
     json.dump(payload, open(p, "w"), indent=1)
@@ -340,6 +340,7 @@ def check(prop_id, tier, seed):
         "assumptions": cfg.get("assumptions", []),
         "wall_s": wall, "violations": len(violations),
     }
-    os.makedirs(os.path.join(VERIF, "evidence"), exist_ok=True)
-    json.dump(ev, open(os.path.join(VERIF, "evidence", prop_id + ".json"), "w"), indent=1)
+    evdir = os.environ.get("HGV_EVIDENCE_DIR") or os.path.join(VERIF, "evidence")
+    os.makedirs(evdir, exist_ok=True)
+    json.dump(ev, open(os.path.join(evdir, prop_id + ".json"), "w"), indent=1)
     return 1 if violations else 0
